@@ -18,7 +18,8 @@ import (
 // ---------------------------------------------------------------------------
 // C04 (H): migration and failover histories interleaved with client commands.
 //
-// cluster   m0 (replica r0) owns slot group g0 with keys ka, kb; m1 owns g1 with kc
+// cluster   m0 (replica r0) owns slot group g0 with keys ka, kb; m1 owns g1 with kc; g0 migrates to m1 or, in
+//           the second variant, to a third master that owns no slot yet
 // alphabet  set g0 migrating to m1 | migrate ka | migrate kb | finalise g0 | failover m0->r0 (old master stays
 //           up as replica) | failover with the old master down | refresh round |
 //           GET ka | SET ka v | INCR kb | DEL ka | MGET ka kb kc | SET kc v
@@ -33,10 +34,15 @@ var c04ops = []string{"migrating", "migrate-ka", "migrate-kb", "finalise", "fail
 
 type c04case struct {
 	Ops []int `json:"ops"`
+	// FreshTarget: the migration target is a third master that owns no slot yet (scale-out)
+	FreshTarget bool `json:"fresh_target,omitempty"`
 }
 
 func (c c04case) String() string {
 	var s []string
+	if c.FreshTarget {
+		s = append(s, "(migration target owns no slots)")
+	}
 	for _, o := range c.Ops {
 		s = append(s, c04ops[o])
 	}
@@ -47,15 +53,26 @@ type c04world struct {
 	cl         *cluster.Cluster
 	s          *vfStack
 	m0, r0, m1 *cluster.Node
+	target     *cluster.Node // where slot group g0 migrates to
 	ka, kb, kc string
 }
 
-func c04setup() *c04world {
+func c04setup() *c04world { return c04setupT(false) }
+
+func c04setupT(fresh bool) *c04world {
 	vrand.Fair()
 	cl := cluster.New(2, 0, 2)
+	if fresh {
+		cl = cluster.New(3, 0, 2)
+		cl.Owner[0], cl.Owner[1] = cl.Masters()[0], cl.Masters()[1] // the third master owns nothing
+	}
 	// add one replica to m0 only
 	w := &c04world{cl: cl}
 	w.m0, w.m1 = cl.Masters()[0], cl.Masters()[1]
+	w.target = w.m1
+	if fresh {
+		w.target = cl.Masters()[2]
+	}
 	w.r0 = &cluster.Node{C: cl, Idx: len(cl.Nodes), ID: "m0r0", Addr: "10.0.1.2:6379", MasterOf: w.m0}
 	w.r0.ShareStore(w.m0)
 	cl.Nodes = append(cl.Nodes, w.r0)
@@ -75,7 +92,7 @@ func isRedirectErr(v resp.Value) bool {
 
 func c04run(cs c04case) (sig, detail string) {
 	body := func() {
-		w := c04setup()
+		w := c04setupT(cs.FreshTarget)
 		cl := w.cl
 		c := w.s.NewClient("c0")
 		n := 0
@@ -86,7 +103,7 @@ func c04run(cs c04case) (sig, detail string) {
 			switch c04ops[op] {
 			case "migrating":
 				if cl.Owner[0] == w.m0 && cl.Migrating[0] == nil && !w.m0.Down {
-					cl.SetMigrating(0, w.m1)
+					cl.SetMigrating(0, w.target)
 					phase = "half-migrated"
 				}
 				continue
@@ -221,19 +238,31 @@ func c04histories(env sched.Env) *sched.Report {
 					rep.Complete = false
 					return
 				}
-				cs := c04case{append([]int{}, ops...)}
-				sched.Progress(cs)
-				sig, detail := c04run(cs)
-				rep.Execs++
-				rep.Transitions += int64(len(ops))
-				if sig != "" {
-					rep.Outcomes["violation: "+sig]++
-					if !sigs[sig] {
-						sigs[sig] = true
-						rep.Violations = append(rep.Violations, sched.CustomViolation("C04/histories", sig, detail, cs))
+				for _, fresh := range []bool{false, true} {
+					if fresh {
+						// the fresh-target variant only differs once a migration was started
+						started := false
+						for _, o := range ops {
+							started = started || o == 0
+						}
+						if !started {
+							continue
+						}
 					}
-				} else {
-					rep.Outcomes["ok"]++
+					cs := c04case{Ops: append([]int{}, ops...), FreshTarget: fresh}
+					sched.Progress(cs)
+					sig, detail := c04run(cs)
+					rep.Execs++
+					rep.Transitions += int64(len(ops))
+					if sig != "" {
+						rep.Outcomes["violation: "+sig]++
+						if !sigs[sig] {
+							sigs[sig] = true
+							rep.Violations = append(rep.Violations, sched.CustomViolation("C04/histories", sig, detail, cs))
+						}
+					} else {
+						rep.Outcomes["ok"]++
+					}
 				}
 			}
 		}
@@ -251,7 +280,7 @@ func c04histories(env sched.Env) *sched.Report {
 		if n%env.NShards != env.Shard {
 			continue
 		}
-		cs := c04case{h}
+		cs := c04case{Ops: h}
 		sig, detail := c04run(cs)
 		rep.Execs++
 		if sig != "" && !sigs[sig] {
@@ -261,7 +290,7 @@ func c04histories(env sched.Env) *sched.Report {
 	}
 	rep.States = rep.Execs
 	rep.Distinct = rep.Execs
-	rep.CustomSamples = []interface{}{c04case{[]int{0, 9, 1, 7}}.String(), c04case{[]int{8, 5, 7, 6, 6, 7}}.String()}
+	rep.CustomSamples = []interface{}{c04case{Ops: []int{0, 9, 1, 7}}.String(), c04case{Ops: []int{8, 5, 7, 6, 6, 7}}.String()}
 	return rep
 }
 
